@@ -388,6 +388,8 @@ func (r *Run) verifyTop() {
 		}
 	}
 	entry := st.clone()
+	r.entryState = entry
+	r.entryEnv = env
 	envPre := *env
 	envPre.frame = nil
 	// closures: free variable names denote cell contents
